@@ -22,7 +22,7 @@ pub fn main(tier: &str, seed: u64, n_override: Option<u64>) {
                 4 => { let f = rng.range(-tp, tp - 0.2); (f, rng.range(f + 0.1, tp)) }                 // ordinary
                 5 => (3.0, 1.0),
                 6 => { let f = rng.range(0.0, tp); (f, f - rng.range(0.001, 0.05)) }                   // almost a full turn
-                7 => { let f = rng.range(-tp, 0.0); (f, (f + rng.range(0.001, 0.05)).min(tp)) }        // narrow
+                7 => { let f = rng.range(-tp, 0.0); (f, (f + if rng.bool() { rng.range(0.001, 0.05) } else { rng.range(1e-5, 1e-3) }).min(tp)) }        // narrow, down to 10 microradians
                 _ => (rng.range(-tp, tp), rng.range(-tp, tp)),
             };
             from[i] = f; to[i] = t;
